@@ -6,7 +6,9 @@
    twice"); and (theorems C03_rt_...) the laws of the runtime operations themselves (Rt.split_equal,
    Rt.split_nonuniform, Rt.merge1, Rt.flatten1, Rt.unflatten1, Rt.tswizzle) for tries of ANY size: occupancy
    splits are undone by mergeRanks, flattenRanks by unflattenRanks, swizzleRanks by any permutation relocates every payload to the permuted path and is undone
-   by the inverse permutation.  NOT a theorem yet (hence _partial): the statement about whole emitted programs;
+   by the inverse permutation; and (theorems C03_nest_..., at the end) the occupancy split in the loop-nest abstraction:
+   for any loop order the nest over the dynamically partitioned tensors contributes exactly the Einsum's values, every
+   original point represented once.  NOT a theorem yet (hence _partial): the statement about whole emitted programs;
    that half is kernel-evaluated execution of every emitted program (tools/props/c03.py). *)
 From Coq Require Import ZArith List Sorted Permutation.
 Require Import TV.Model.Rt TV.Proofs.OccLaws TV.Proofs.RtLaws.
